@@ -2,7 +2,7 @@
 
 use crate::batch::{PropDef, Scen};
 use crate::core::{Ctx, VResult};
-use crate::{d1req, d1stream};
+use crate::{d1c03, d1req, d1stream, d4};
 
 const REAL_SYNC: &[&str] = &[
     "fastcgi_server::parser::request::Parser (built from /repo working tree, debug-assertions + overflow-checks on)",
@@ -69,6 +69,21 @@ pub fn all() -> Vec<PropDef> {
         rule: "table: all 3 roles x every current selection x every requested selection (27 rows) decided exhaustively in one run; histories: seeded record sequences with every stream type in compliant and non-compliant order, set_stream at arbitrary moments incl. early advance, re-selection and every rejected selection, delivered bytes compared with M-stream; distinct = distinct (skeleton, digest)",
         assumptions: vec!["only input-stream record types are requested (requesting a non-stream type trips a debug assertion and is outside the statement)"],
         real: REAL_SYNC.to_vec(), stub: STUB_SYNC.to_vec(),
+    });
+    v.push(PropDef {
+        id: "C03", level: "exploration", driver: "D1 caller-schedule simulator (both sync parsers, hostile input)",
+        scens: vec![s("request_parser", d1c03::c03_req, 60_000, 6_000_000), s("stream_parser", d1c03::c03_stream, 40_000, 4_000_000)],
+        rule: "each run = one hostile byte string (uniformly random, or valid traffic under 1..3 structured mutations: version/type/length/padding/id flips, truncation, splices, name-value lengths up to 2^31-1, BeginRequest with wrong length / id 0 / unknown role) run under 3 (request parser) or 2 (stream parser) independent schedules with every call under catch_unwind (debug assertions and overflow checks on), repeated calls after the final state and conversions on clones; outcome compared across schedules and with the reference models",
+        assumptions: vec!["StuckOnInput / a full buffer without progress is accepted only when some Params/GetValues record announces more content than the effective buffer (over-approximation of the largest unit the parser must hold contiguously)"],
+        real: REAL_SYNC.to_vec(), stub: STUB_SYNC.to_vec(),
+    });
+    v.push(PropDef {
+        id: "C20", level: "fault_enumeration", driver: "D4 sink simulator (fault-injecting io::Write)",
+        scens: vec![s("sink", d4::c20, 3_000, 300_000)],
+        rule: "each run = 9 consecutive status codes (all 900 codes are covered by the batch) x one seeded header list / location; for every response EVERY sink capacity 0..=len+1 is enumerated with a seeded per-call behaviour script (accept all / short write of 1..12 bytes / Interrupted) and both full-sink modes (Ok(0) like &mut [u8], or an error), plus bounded &mut [u8] destinations; distinct = distinct (skeleton, digest); non-trivial = at least one injected sink fault fired",
+        assumptions: vec!["http::StatusCode::canonical_reason (http crate) is the reason-phrase reference", "header names equal to 'status' are excluded (documented reserved name, debug assertion)"],
+        real: vec!["fastcgi_server::cgi::response::{write_headers, http_headers, simple_redirect}", "std::io::Write::write_all retry semantics", "http crate types"],
+        stub: vec!["the destination (Sink: capacity, short writes, Interrupted, full-sink behaviour)"],
     });
     v
 }
